@@ -198,8 +198,12 @@ def observe(bu, isa):
     live_nodes = set()
     for b in ob.code_blocks:
         live_nodes.add(id(b))
+    others = [x for x in ir.modules if x is not m]
     for e in ir.cfg:
         src, dst = e.source, e.target
+        if others and any(getattr(src, "module", None) is x and
+                          getattr(dst, "module", None) is x for x in others):
+            continue    # an edge inside another module of the IR
         if isinstance(src, gtirb.ProxyBlock):
             ob.edge_problems.append(("edge-from-proxy",))
             continue
